@@ -331,6 +331,7 @@ def evaluate(obs):
         stats['counted_faults'] += len(counted)
         stats['absorbed_faults'] += len(mine) - len(counted)
         viol += oracles.outcome_oracle(obs, x)
+        viol += oracles.stable_outcome_oracle(obs, x)
         if hit:
             nontrivial = True
         # partially transferred data is discarded "as C05 and C06 describe": evaluated, reported under their ids
